@@ -31,7 +31,7 @@ var c10Out = []c10Msg{
 	{MID: "OUTM1", To: []string{"N0AAA"}},
 	{MID: "OUTM2", To: []string{"N0AAA", "N0BBB"}},
 	{MID: "OUTM3", To: []string{"N0AAA"}, P2POnly: true},
-	{MID: "OUTM4", To: []string{"N0AAA"}, Cc: []string{"N0BBB"}},
+	{MID: "OUTM4", To: []string{"N0AAA"}, Cc: []string{"N0BBB"}, P2POnly: true}, // P2P-only with two recipients: for nobody
 	{MID: "OUTM5", Cc: []string{"N0BBB"}},
 }
 var c10In = []string{"INBM1", "INBM2"}
@@ -53,6 +53,14 @@ func c10BuildOut(m c10Msg) *fbb.Message {
 	if m.P2POnly {
 		x.Header.Set("X-P2POnly", "true")
 	}
+	return x
+}
+
+// c10BuildOutV2 is a later posting under the same MID with other content (a re-post of a sent message).
+func c10BuildOutV2(m c10Msg) *fbb.Message {
+	x := c10BuildOut(m)
+	x.SetSubject("second posting of " + m.MID)
+	x.SetBody("another body for " + m.MID + ", longer than the first one\r\n")
 	return x
 }
 
@@ -83,7 +91,7 @@ func stripPrivate(m *fbb.Message, keys ...string) []byte {
 // ---- operations -------------------------------------------------------------------------------
 
 type c10Op struct {
-	Kind string `json:"kind"` // AddOut Prepare GetOutbound SetSent SetDeferred ProcessInbound ProcessInboundAll GetInboundAnswer SetUnread SetUnreadTwice Restart
+	Kind string `json:"kind"` // AddOut AddOutV2 Prepare GetOutbound SetSent SetDeferred ProcessInbound ProcessInboundAll GetInboundAnswer SetUnread SetUnreadTwice Restart
 	I    int    `json:"i"`    // message / forwarder-list index
 	B    bool   `json:"b"`    // SetUnread value / Restart sendOnly
 }
@@ -113,6 +121,10 @@ func (m *c10Model) enabled() []c10Op {
 				ops = append(ops, c10Op{Kind: "AddOut", I: i})
 			}
 		}
+	}
+	// the first message posted again, with other content, once it has been sent
+	if m.Sent[c10Out[0].MID] != nil && m.Out[c10Out[0].MID] == nil {
+		ops = append(ops, c10Op{Kind: "AddOutV2", I: 0})
 	}
 	ops = append(ops, c10Op{Kind: "Prepare"}, c10Op{Kind: "Restart", B: false}, c10Op{Kind: "Restart", B: true})
 	if m.Prepared {
@@ -160,6 +172,10 @@ func (m *c10Model) apply(o c10Op) string {
 		om := c10Out[o.I]
 		m.Out[om.MID] = stripPrivate(c10BuildOut(om), "X-Filepath", "X-Unread")
 		return "ok"
+	case "AddOutV2":
+		om := c10Out[o.I]
+		m.Out[om.MID] = stripPrivate(c10BuildOutV2(om), "X-Filepath", "X-Unread")
+		return "ok"
 	case "Prepare":
 		m.Deferred = map[string]bool{}
 		m.Prepared = true
@@ -176,11 +192,15 @@ func (m *c10Model) apply(o c10Op) string {
 			if _, ok := m.Out[om.MID]; !ok || m.Deferred[om.MID] {
 				continue
 			}
+			name := om.MID
+			if bytes.Contains(m.Out[om.MID], []byte("second posting")) {
+				name += "[second posting]"
+			}
 			if len(fw) == 0 {
 				if om.P2POnly {
 					continue
 				}
-				mids = append(mids, om.MID)
+				mids = append(mids, name)
 				continue
 			}
 			rcv := append(append([]string{}, om.To...), om.Cc...)
@@ -189,7 +209,7 @@ func (m *c10Model) apply(o c10Op) string {
 			}
 			for _, f := range fw {
 				if normAddr(f) == normAddr(rcv[0]) {
-					mids = append(mids, om.MID)
+					mids = append(mids, name)
 					break
 				}
 			}
@@ -249,6 +269,15 @@ func (m *c10Model) key() string {
 		if m.Deferred[om.MID] {
 			b.WriteByte('d')
 		}
+		if om.MID == c10Out[0].MID { // which posting lies where
+			for _, x := range [][]byte{m.Out[om.MID], m.Sent[om.MID]} {
+				if bytes.Contains(x, []byte("second posting")) {
+					b.WriteByte('2')
+				} else {
+					b.WriteByte('1')
+				}
+			}
+		}
 	}
 	for _, mid := range c10In {
 		switch {
@@ -300,6 +329,11 @@ func (r *c10Real) apply(o c10Op) (res string) {
 			return "error: " + err.Error()
 		}
 		return "ok"
+	case "AddOutV2":
+		if err := r.h.AddOut(c10BuildOutV2(c10Out[o.I])); err != nil {
+			return "error: " + err.Error()
+		}
+		return "ok"
 	case "Prepare":
 		if err := r.h.Prepare(); err != nil {
 			return "error: " + err.Error()
@@ -321,13 +355,17 @@ func (r *c10Real) apply(o c10Op) (res string) {
 					mids[len(mids)-1] += "[carries " + k + "]"
 				}
 			}
-			var want []byte
+			var want, want2 []byte
 			for _, om := range c10Out {
 				if om.MID == m.MID() {
 					want = stripPrivate(c10BuildOut(om), "X-P2POnly", "X-Filepath", "X-Unread")
+					want2 = stripPrivate(c10BuildOutV2(om), "X-P2POnly", "X-Filepath", "X-Unread")
 				}
 			}
-			if got := stripPrivate(m, "X-P2POnly", "X-Filepath", "X-Unread"); !bytes.Equal(got, want) {
+			got := stripPrivate(m, "X-P2POnly", "X-Filepath", "X-Unread")
+			if bytes.Equal(got, want2) && !bytes.Equal(want, want2) {
+				mids[len(mids)-1] += "[second posting]"
+			} else if !bytes.Equal(got, want) {
 				mids[len(mids)-1] += "[content differs]"
 			}
 		}
